@@ -45,7 +45,9 @@ class FPFormat:
     def max_absolute_value(self) -> float:
         """The maximum absolute value representable by the format."""
         max_exponent = 2 ** (self.exponent_bits - 1) - 1
-        return cast(float, 2**max_exponent * (2 - 2**-self.mantissa_bits))
+        # (a float also for mantissa_bits == 0, where the factor below is the int 1 and
+        # the product, e.g. 2**127 for E8M0, is an int too large for `torch.clip`)
+        return float(2**max_exponent * (2 - 2**-self.mantissa_bits))
 
     @property
     def min_absolute_normal(self) -> float:
